@@ -508,6 +508,13 @@ def run(facts, rep, tier, ctx):
     # every AlreadyExists of every operation as "a directory is there"
     from .c20 import tolerated_kind_sites
     tolerated_kind_sites(facts, rep, "R12.3k", D)
+    # R12.3p which class a refusal of the path type has follows from what the filesystem reported, never from the path string
+    # alone: an "Other" for the root replaces the DirectoryExists / NotSupported the backend would have given
+    from ..pathrules import PathRules as _PR12
+    from .c10 import _Prefixed as _Pf12
+    for w12 in (ws, wa):
+        if w12.present():
+            _PR12(facts, w12, D).argument_only_refusals(rep if not w12.asyncw else _Pf12(rep, "A"), "R12.3p")
     k_io = io_error_origin(facts, rep)
     rep.floor("io::Error construction sites (in-memory seek arithmetic)", k_io, 2)
     scratch = Report("x")
@@ -538,6 +545,12 @@ def run(facts, rep, tier, ctx):
             d = o["key"].split("|")[2]
             if "no copy-up" in d:
                 rep.ob(("A/" if w_.asyncw else "") + "R12.3u", o["fn"], d, o["ok"], o["detail"], o["loc"])
+        # ... nor does append_file re-label what its copy-up reports (NotSupported of a read-only write layer, FileNotFound of
+        # a lower file that vanished): the copy-up's result is propagated as it is
+        scratch = Report("a")
+        c09.table_u(facts, scratch, w_, "U", only=("append_file",))
+        for o in scratch.obligations:
+            rep.ob(("A/" if w_.asyncw else "") + "R12.3u", o["fn"], o["key"].split("|")[2], o["ok"], o["detail"], o["loc"])
         # the write layer's own error class survives the overlay's parent materialisation (NotSupported of a read-only layer)
         scratch = Report("m")
         c09.materialisation_rules(facts, scratch, w_, "M")
